@@ -2,7 +2,7 @@
    final state of the process system does not depend on the schedule.
    Proved for every number of workers, every coordinator tree, every
    deterministic handler. *)
-From Coq Require Import List Arith Bool Lia.
+From Coq Require Import List Arith Bool Lia QArith.
 From IT Require Import Common.Confluence Model.Tempering.
 Import ListNotations.
 Open Scope nat_scope.
@@ -303,3 +303,36 @@ Proof.
   destruct (schedule_independent msg reply chain outcome hd N n m s t1 t2 H1 T1 H2 T2) as [Hn [Hc Hw]].
   split; [assumption |]. split; assumption.
 Qed.
+
+(* Defect D9 in the pinned tree: with display_progress=False the chain cannot be
+   pickled, the worker sends nothing, and return_chains() never returns -- under
+   EVERY schedule (the reference run blocks at the first Recv, and by
+   reference_run_decides so does every complete schedule). *)
+Definition d9_chain : chain := mkChain 1 [([0%Q], 0%Q)] [] [] false.
+Definition d9_sys := pt_init [d9_chain] [CReturnChains] [] [] [].
+Definition d9_handler := fun (_ : nat) => handle_pinned (fun _ => false) chain_step.
+
+Theorem return_chains_pinned_refuted :
+  forall m t2, steps (step d9_handler 1) m d9_sys t2 -> terminal (step d9_handler 1) t2 ->
+  forall r, co t2 <> Done r.
+Proof.
+  intros m t2 Hm Ht2 r.
+  remember (run d9_handler true [0] 50 d9_sys) as res eqn:Hres.
+  destruct res as [t n].
+  assert (Hst : stuck 1 (fst (run d9_handler true [0] 50 d9_sys)) = true) by (vm_compute; reflexivity).
+  assert (Hco : match co (fst (run d9_handler true [0] 50 d9_sys)) with Done _ => False | _ => True end)
+    by (vm_compute; exact I).
+  rewrite <- Hres in Hst, Hco. simpl in Hst, Hco.
+  assert (Ho : forall i, In i [0] -> i < 1) by (intros i [<- | []]; lia).
+  destruct (reference_run_decides msg reply chain outcome d9_handler 1 true [0] 50 d9_sys t n
+              Ho (eq_sym Hres) Hst m t2 Hm) as [_ H].
+  destruct (H Ht2) as [_ [Hc _]]. rewrite Hc. intros E. rewrite E in Hco. exact Hco.
+Qed.
+
+(* ... while the repaired handler hands the chain back *)
+Lemma return_chains_repaired :
+  match co (fst (run pt_handler true [0] 50 d9_sys)) with
+  | Done (Finished st) => cs_snaps st = [[d9_chain]]
+  | _ => False
+  end.
+Proof. vm_compute. reflexivity. Qed.
